@@ -479,9 +479,10 @@ fn main() {
             }
         }
     }
-    let samples: Vec<Value> = lines
+    let picks: Vec<usize> = if lines.is_empty() { vec![] } else { vec![lines.len() / 3, 2 * lines.len() / 3, lines.len() - 1] };
+    let samples: Vec<Value> = picks
         .iter()
-        .take(3)
+        .map(|i| &lines[*i])
         .map(|l| {
             json!(l["hist"].as_array().map(|h| h.iter().map(|s| format!("{}({})->{}", s["req"]["k"].as_str().unwrap_or(""), s["req"]["a"].as_str().unwrap_or(""), s["st"].as_str().unwrap_or(""))).collect::<Vec<_>>().join(" ")).unwrap_or_default())
         })
